@@ -29,8 +29,10 @@ func parseFns(raw json.RawMessage) []FnSpec {
 			f.Kind = s
 		} else {
 			l := asList(kv[1])
-			f.Kind = "val"
-			f.Ret = mustVal(l[1])
+			f.Kind = asString(l[0])
+			if len(l) > 1 {
+				f.Ret = mustVal(l[1])
+			}
 		}
 		out = append(out, f)
 	}
@@ -155,7 +157,7 @@ func replayProgRow(c *Check, row *Row, po progOpts) {
 			if obj != nil {
 				objArg = obj
 			}
-			o := m.exec(objArg)
+			o := m.execAct(step.Act, objArg)
 			ro := runObs{out: o, calls: describeCalls(o.Calls), vars: describeGlobals(m)}
 			obs[mi] = append(obs[mi], ro)
 			if step.Exp == nil || skipping {
@@ -180,7 +182,7 @@ func replayProgRow(c *Check, row *Row, po progOpts) {
 					c.disagree(&Disagreement{Kind: "calls", Script: src, Mode: modes[mi], Expected: want, Got: ro.calls, Row: row.Raw, Detail: map[string]interface{}{"where": where}})
 				}
 			}
-			if !exp.IsErr() && exp.Tag != "DIVERGE" && len(step.Exp.Vars) > 0 && string(step.Exp.Vars) != "null" {
+			if (!exp.IsErr() || row.ErrVars) && exp.Tag != "DIVERGE" && len(step.Exp.Vars) > 0 && string(step.Exp.Vars) != "null" {
 				if ok, want, got := compareVars(m, step.Exp.Vars); !ok {
 					c.disagree(&Disagreement{Kind: "vars", Script: src, Mode: modes[mi], Expected: want, Got: got, Row: row.Raw, Detail: map[string]interface{}{"where": where}})
 				}
@@ -188,13 +190,24 @@ func replayProgRow(c *Check, row *Row, po progOpts) {
 			if o.Scopes != 0 {
 				c.disagree(&Disagreement{Kind: "scopes-open", Script: src, Mode: modes[mi], Expected: "0 open scopes after the run", Got: fmt.Sprint(o.Scopes), Row: row.Raw, Detail: map[string]interface{}{"where": where}})
 			}
-			if exp.IsErr() {
+			if exp.IsErr() && !row.ErrVars {
 				// after a failed run the variables are whatever the run had done so far: the
 				// model does not follow them, later runs are unconstrained
 				skipping = true
 			}
 		}
 		cancel()
+	}
+	if row.Repeat {
+		for mi := range modes {
+			for ri := 1; ri < len(obs[mi]); ri++ {
+				a, b := obs[mi][ri-1], obs[mi][ri]
+				if a.out.class() != b.out.class() || a.calls != b.calls {
+					c.disagree(&Disagreement{Kind: "not-repeatable", Script: src, Mode: modes[mi], Expected: a.out.class() + " calls " + a.calls, Got: b.out.class() + " calls " + b.calls, Row: row.Raw,
+						Detail: map[string]interface{}{"where": fmt.Sprintf("run %d differs from run %d on the same inputs", ri+1, ri)}})
+				}
+			}
+		}
 	}
 	// optimised and unoptimised evaluators must be indistinguishable (C03), run by run
 	for ri := range row.Runs {
